@@ -3,9 +3,9 @@ package main
 import (
 	"context"
 	"fmt"
+	"math"
 	"os"
 	"runtime/debug"
-	"math"
 	"sort"
 	"time"
 
